@@ -175,10 +175,31 @@ def run(ctx):
                 runs.append((name, 'emit-callback', k, rep, model, l, toks))
     ctx.log('%d scenarios, %d fault runs' % (len(scen), len(runs)))
     rr = lib.run_harness_resilient(H, [r[5] for r in runs], timeout=1500)
-    mruns = [r for r in runs if r[4]]
-    mres = ctx.run_model('reset', ['F1 ' + ' '.join(r[6]) for r in mruns], timeout=1500) if mruns else []
-    f0res = None
-    mmap = {id(r): m for r, m in zip(mruns, mres)}
+    # Model queries.  Emit failures: the k-th emit call is the same call on both sides (the number of emit calls is fixed by the API).
+    # Allocation failures: WHICH call needs the k-th allocation depends on the allocator's sizing policy, which the property leaves
+    # open; so the implementation's run tells at which op the failure surfaced and the model is asked for the consequences of
+    # "an allocation fails during op i" (XA:i - capacities dropped to zero just before op i, next allocator call fails).
+    def failing_op(toks, t):
+        i_rec = toks.index('REC')
+        if len(t) <= i_rec or t[i_rec] != 'tripped': return None
+        j = i_rec - 1
+        while j > 1 and t[j] == '_': j -= 1
+        return j
+    def model_line(r, rep, fixed=True):
+        name, mech, k, rp, model, l, toks = r
+        tk = list(toks)
+        if mech == 'alloc-callback':
+            j = failing_op(toks, rep.split())
+            if j is None: return None
+            tk[0] = 'XA:%d' % j
+        return ('F1 ' if fixed else 'F0 ') + ' '.join(tk)
+    mruns = []
+    for r, rep in zip(runs, rr):
+        if r[4] and not ('CRASH' in rep):
+            ml = model_line(r, rep)
+            if ml: mruns.append((r, ml))
+    mres = ctx.run_model('reset', [ml for _, ml in mruns], timeout=1500) if mruns else []
+    mmap = {id(r): m for (r, _), m in zip(mruns, mres)}
 
     def norm(tokens):
         out = []
@@ -220,28 +241,53 @@ def run(ctx):
         if t[-1] != '0':
             ctx.violation('live-after-clear:' + name.split(':')[0], 'scenario %s, %s: %s (live blocks * 1000 + bookkeeping errors) after flatcc_builder_clear' % (name, tag, t[-1]),
                           {'harness_line': l, 'scenario': name, 'mechanism': mech, 'k': k})
-        if model:
+        if model and id(r) in mmap:
             m = mmap[id(r)].split()
             # the model has no CNT / LIVE; compare the guarded section (return value of every call, which call fails) and the rebuild
             i_rec = toks.index('REC')
             a = norm(t[:i_rec + 1]); b = norm(m[:i_rec + 1])
-            if a != b: mism.append((r, t, m))
+            if a != b: mism.append((r, t, m, rep))
     if mism:
-        f0 = ctx.run_model('reset', ['F0 ' + ' '.join(r[6]) for r, _, _ in mism], timeout=1500)
-        for (r, t, m), z in zip(mism, f0):
+        f0 = ctx.run_model('reset', [model_line(r, rep, fixed=False) for r, _, _, rep in mism], timeout=1500)
+        for (r, t, m, rep), z in zip(mism, f0):
             name, mech, k, rp, model, l, toks = r
             i_rec = toks.index('REC')
             if norm(t[:i_rec + 1]) == norm(z.split()[:i_rec + 1]):
                 ctx.violation('cached-vtable-minus-one', 'scenario %s, %s k=%d: the implementation behaves like the transcription of the pinned commit, not like the repaired model: %s' % (
                                   name, mech, k, ' '.join(t[:i_rec + 1])[-200:]),
-                              {'harness_line': l, 'model_line': 'F1 ' + ' '.join(toks)})
+                              {'harness_line': l, 'model_line': model_line(r, rep)})
             else:
                 j = next((i for i, (x, y) in enumerate(zip(norm(t), norm(m))) if x != y), -1)
                 ctx.violation('corr:fault:%s' % mech, 'model and implementation disagree in scenario %s, %s k=%d at op %d `%s`: impl %s model %s' % (
                                   name, mech, k, j, toks[j] if 0 <= j < len(toks) else '?', t[j][:60] if j >= 0 else '?', m[j][:60] if j >= 0 else '?'),
-                              {'harness_line': l, 'model_line': 'F1 ' + ' '.join(toks)})
+                              {'harness_line': l, 'model_line': model_line(r, rep)})
     ctx.sample({'fault_run': runs[0][5][:300], 'reply': rr[0][:300]})
     ctx.sample({'swallowed_failures': nsw, 'model_compared_runs': len(mruns), 'model_mismatches': len(mism)})
+
+    # ---------------------------------------------------------------- assertions enabled: the same single failures of the build scenarios
+    # (FLATCC_BUILDER_ASSERT_ON_ERROR=0 keeps the `check` macro of builder.c from asserting on every reported failure; plain
+    # FLATCC_ASSERTs stay active: a failure followed by reset / rebuild must not trip an internal consistency assertion)
+    exe_a = build_harness(ctx, 'fault_inject', extra_defs=MACRO_DEFS + ['-DFLATCC_BUILDER_ASSERT_ON_ERROR=0'], ndebug=False, out_name='fault_inject_assert')
+    HA = lib.Harness(exe_a, env={'ASAN_OPTIONS': 'detect_leaks=1:abort_on_error=0:allocator_may_return_null=1'})
+    aruns = [r for r in runs if r[0].startswith('build:') and r[3] == 0 and r[1] != 'emit-callback']
+    if not ctx.thorough: aruns = [r for r in aruns if r[0].split(':')[1][:6] in ('table0', 'shared', 'padded', 'random')]
+    ar = lib.run_harness_resilient(HA, [r[5] for r in aruns], timeout=1500)
+    for r, rep in zip(aruns, ar):
+        name, mech, k, rp, model, l, toks = r
+        ctx.count('assert ' + l, klass='assert-enabled:%s' % mech)
+        if rep.startswith('CRASH') or 'CRASH' in rep:
+            m = re.search(r"(\w+\.c):(\d+): .*Assertion `([^']*)' failed", rep)
+            if m and 'vd_end == 0' in m.group(3): key = 'alloc-ht-assert-after-failed-ht'
+            elif m: key = 'assert:%s:%s' % (m.group(1), m.group(2))
+            else: key = classify_crash(rep)
+            ctx.violation(key, 'assert-enabled build, scenario %s, %s k=%d: %s' % (name, mech, k, (m.group(0) if m else rep)[:300]),
+                          {'harness_line': l, 'build': 'no NDEBUG, -DFLATCC_BUILDER_ASSERT_ON_ERROR=0', 'stderr': rep[:1500]})
+            continue
+        t = rep.split()
+        if t[-3] != (fresh_of.get(name) or ''):
+            ctx.violation('rebuild-after-failure-differs:assert-build', 'assert-enabled build, scenario %s, %s k=%d: rebuild after reset differs from a fresh builder' % (name, mech, k),
+                          {'harness_line': l})
+
 
     ctx.trusted = lib.DEFAULT_TRUSTED + ['harness/fi_alloc.h allocation layer and the GUARD/REC skip logic of harness/reset_ops.h (mirrored in ocaml/reset/driver.ml)',
                                          'ASan / LSan as the observers of invalid accesses, double frees and leaks inside the runtime']
